@@ -39,7 +39,9 @@ pub fn gen_stream(rng: &mut Rng, n: usize, out: &mut Vec<String>) {
         let k = rng.below(8) as usize;
         let mut items: Vec<String> = vec![];
         let mut tok = 0;
-        for _ in 0..k { tok += 1; items.push(match rng.below(6) { 0 => format!("r{}", (0..1 + rng.below(2)).map(|j| hex(format!("ldap://h{}/{}", tok, j).as_bytes())).collect::<Vec<_>>().join("+")), 1 => format!("i{}", tok), _ => format!("e{}", tok) }); }
+        for _ in 0..k { tok += 1; items.push(match rng.below(6) { // reference URIs: distinct per message, or from a pool of two so that the same URI turns up again, also in adjacent positions (every URI counts)
+                0 => if rng.chance(1, 2) { format!("r{}", (0..1 + rng.below(3)).map(|_| hex(format!("ldap://pool/{}", rng.clone().below(2)).as_bytes())).collect::<Vec<_>>().join("+")) }
+                     else { format!("r{}", (0..1 + rng.below(2)).map(|j| hex(format!("ldap://h{}/{}", tok, j).as_bytes())).collect::<Vec<_>>().join("+")) }, 1 => format!("i{}", tok), _ => format!("e{}", tok) }); }
         let refs = if rng.chance(1, 3) { (0..1 + rng.below(2)).map(|j| hex(format!("ldap://r/{}", j).as_bytes())).collect::<Vec<_>>().join("+") } else { "~".into() };
         items.push(format!("d{}.{}.{}", *rng.pick(&[0u32, 0, 0, 4, 10, 32, 53]), refs, rng.below(3)));
         let mode = match i % 5 { 0 | 1 => "d", 2 | 3 => "a", _ => "s" };
